@@ -233,7 +233,7 @@ package node
 //@ spec func processesWF(n *node) bool = forall k any :: smHas(n.processes, k) ==> typeis(smVal(n.processes, k), *process) && smVal(n.processes, k).(*process) != nil && smVal(n.processes, k).(*process).state != 1
 //@ spec func procOf(n *node, pid gen.PID) *process = smVal(n.processes, any(pid)).(*process)
 //@ spec func prioQueue(p *process, prio gen.MessagePriority) lib.QueueMPSC = (prio == gen.MessagePriorityHigh ? p.mailbox.System : (prio == gen.MessagePriorityMax ? p.mailbox.Urgent : p.mailbox.Main))
-//@ spec func mailboxWF(p *process) bool = p.mailbox.Main != nil && p.mailbox.System != nil && p.mailbox.Urgent != nil && p.mailbox.Main != p.mailbox.System && p.mailbox.Main != p.mailbox.Urgent && p.mailbox.System != p.mailbox.Urgent
+//@ spec func mailboxWF(p *process) bool = p.mailbox.Main != nil && p.mailbox.System != nil && p.mailbox.Urgent != nil && p.mailbox.Log != nil && p.mailbox.Main != p.mailbox.System && p.mailbox.Main != p.mailbox.Urgent && p.mailbox.System != p.mailbox.Urgent && p.mailbox.Log != p.mailbox.Main && p.mailbox.Log != p.mailbox.System && p.mailbox.Log != p.mailbox.Urgent
 
 //@ spec func namesWF(n *node) bool = forall k any :: smHas(n.names, k) ==> typeis(smVal(n.names, k), *process) && smVal(n.names, k).(*process) != nil && mailboxWF(smVal(n.names, k).(*process))
 //@ spec func procByName(n *node, name gen.Atom) *process = smVal(n.names, any(name)).(*process)
@@ -303,8 +303,9 @@ package node
 //@ lemma procState_callbacks_exclusive props C01 C05: forall a, b int, s int32, o, f, z int :: psInv(s, o, f, z) && a != b && a != 0 && b != 0 ==> !(o == a && o == b) && !(f == a && f == b) && !(o == a && f == b)
 
 //@ func (p *process) run
-//@   props C01 C05
+//@   props C01 C05 C02
 //@   protocol procState at p
+//@   requires [mailbox] mailboxWF(p)
 //@   modifies woken(p), p.state, owner(p), fin(p)
 //@   ensures_ghost woken(p) == old(woken(p)) + 1
 //@   at atomic 1 ghost owner = (result ? child : owner(p))
@@ -341,7 +342,7 @@ package node
 
 //@ func (p *process) run$1
 //@   props C01 C05 C02
-//@   requires [mailbox] mailboxWF(p) && p.mailbox.Log != nil && p.mailbox.Log != p.mailbox.Main && p.mailbox.Log != p.mailbox.System && p.mailbox.Log != p.mailbox.Urgent
+//@   requires [mailbox] mailboxWF(p)
 //@   protocol procState at p
 //@   requires [holds_token] p != nil && owner(p) == me && fin(p) == 0
 //@   loop 1 invariant [still_owner] owner(p) == me && fin(p) == 0
